@@ -260,7 +260,7 @@ var recStream = ev.New(prop, "adts-streams",
 	Require("multi", "crc", "lib", "ref", "sync-in-payload", "max-length")
 
 func TestStreams(t *testing.T) {
-	ev.Rapid(t, "adts-streams", 6000, 400000, func(t *rapid.T) {
+	ev.Rapid(t, "adts-streams", 6000, 8000000, func(t *rapid.T) {
 		var c FCase
 		n := rapid.IntRange(1, 6).Draw(t, "n")
 		var cl []string
